@@ -518,7 +518,7 @@ func verifExpand(re *Regexp, rep string, m *Match, text []rune) string {
 
 func VerifCheck_replace() {
 	n := verifParamInt("n")
-	s := string(verifScalars("t", n))
+	s := verifSubject(n) // n symbolic scalars, or (alphabet / runealphabet parameter) n symbols of a small alphabet
 	re := verifRE
 	rs := []rune(s)
 	rep := verifParam("rep")
